@@ -37,8 +37,11 @@ def text_scenarios(tier, rng):
     L = 4 if tier == "quick" else 5
     texts = ["".join(t) for n in range(1, L + 1) for t in itertools.product(alpha, repeat=n)]
     texts += ["ab\ncd\n", "a\n\nb\n\n\nc", "x\n|y\n|\n", "\n\n\n\n\n", "one\ntwo\nthr", "a\n|\n|b\n"]
+    # characters that str.splitlines() treats as line boundaries but that are ordinary record content here
+    # (no carriage returns: the file is read in text mode, whose universal-newline translation is Python's, not streamz')
+    texts += ["p1\x0cp2\nq\x0br\n", "\x1e{}\n\x1e[]\n", "a\x1cb\x1dc\n|d\n"]
     if tier == "quick":
-        texts = rng.sample(texts, 70) + texts[-6:]
+        texts = rng.sample(texts[:-9], 70) + texts[-9:]
     for text in texts:
         data = text.encode()
         for dname in DELIMS:
